@@ -387,7 +387,9 @@ class IndentationFitter(object):
         `self.fit_range` before the actual fitting.
         """
         model_key = self.fp["model_key"]
-        params_initial = self.fp["params_initial"]
+        # (work on a copy: `_fit` is called once per pass and the stored
+        # initial parameters must stay in measured units)
+        params_initial = copy.deepcopy(self.fp["params_initial"])
         # modify contact point with gcf_k
         cpi = params_initial["contact_point"].value
         params_initial["contact_point"].set(value=cpi * self.fp["gcf_k"])
